@@ -251,7 +251,7 @@ def stepActive (s : MonState) (toks : List String) (line : LineD) : MonState × 
     | some pb, some cb => agentStep s toks true s.b pb cb line ctx t1 uncertain
     | _, _ => ([], s.b)
   -- cross-agent clauses
-  let vEm := if line.out.isEmpty then [] else c03Emitted s.a s.b line.out
+  let vEm := if line.out.isEmpty then [] else c03Emitted s.a s.b line.out ++ c20Issuer s.a s.b p.a line.a p.b line.b line.out
   let vMirror := match p.b, line.b with
     | some pb, some cb => c01Mirror s p.a line.a pb cb
     | _, _ => []
@@ -283,6 +283,11 @@ def stepActive (s : MonState) (toks : List String) (line : LineD) : MonState × 
     | "renom" :: _ =>
       if line.res == "ok" then { s1 with anyRenom := true, renomEarly := s1.renomEarly || !(s.a.started && s.b.started) } else s1
     | _ => s1
+  -- a nomination VALUE on the wire, whoever caused it (`renom` op or the automatic check of the controlling agent)
+  let s1 : MonState :=
+    if line.out.any (fun d => d.kind == .req && d.nom.isSome && (d.tid.startsWith "A#" || d.tid.startsWith "B#")) then
+      { s1 with anyRenom := true, renomEarly := s1.renomEarly || !(s.a.started && s.b.started) }
+    else s1
   let roleMovedNow : Bool :=
     let moved (w : String) (p c : AgD) : Bool :=
       p.ctl != c.ctl && !(match toks with | "start" :: who :: _ => who == w | _ => false)
